@@ -53,6 +53,12 @@ Plan generate(const std::string& prop, int tier, uint64_t batchSeed, uint64_t id
         p.prop = prop;
         p.seed = batchSeed;
         p.idx = static_cast<int64_t>(idx);
+        {
+            Rng r(runSeed(batchSeed, prop, idx), "c20-post");
+            for (auto& it : p.items)
+                if (it.tag == "op" && it.get("k") == OP_STATUPD && it.get("kind", wire::K_IFSTAT) == wire::K_IFSTAT && r.chance(1, 3))
+                    it.set("cut", static_cast<int64_t>(r.below(32)));
+        }
         return p;
     }
     if (prop == "C19")
@@ -73,6 +79,8 @@ Plan generate(const std::string& prop, int tier, uint64_t batchSeed, uint64_t id
         cfg.set("horizon", r.pick<int64_t>({2000, 20000, 100000, 400000}));
         p.items.push_back(cfg);
         const bool sameWorkload = r.chance(1, 2);  // identical workloads on all threads: every access (also on rare paths) has a twin
+        if (sameWorkload && r.chance(1, 3))
+            p.items.front().set("clone", static_cast<int64_t>(1 + r.below(4))).set("clonedeliv", static_cast<int64_t>(r.below(4)));  // cloned start (threads.cpp): the threads continue on copies of one object
         const int shared = mixn[r.below(12)];
         const uint64_t sharedIdx = r.next() % 1000000;
         for (int t = 0; t < n; ++t)
@@ -136,6 +144,23 @@ Plan generate(const std::string& prop, int tier, uint64_t batchSeed, uint64_t id
                 c.set("th", t).set("propn", pn);
                 p.items.push_back(c);
             }
+            if ((sameWorkload ? (sharedIdx % 6 == 0) : r.chance(1, 6)) && (pn == 5 || pn == 17 || pn == 18 || pn == 4 || pn == 6 || pn == 1))
+            {
+                // a reassembly of 32 KiB and more on this thread (size-dependent paths: pools, reserve thresholds)
+                Item node("node");
+                node.set("id", 60).set("type", 2).set("dev", 9).set("stream", 9).set("lat", 1).set("gap", 1).set("th", t);
+                p.items.push_back(node);
+                Item op("op");
+                op.set("k", OP_RAWSEG).set("t", 1000000).set("node", 60).set("ver", 1).set("mtype", 1).set("ptype", 0x20).set("id", sameWorkload ? 4242 : 4242 + t).set("th", t);
+                const int ns = 2 + static_cast<int>((sameWorkload ? sharedIdx : r.next()) % 3);
+                for (int k = 0; k < ns; ++k)
+                {
+                    Item sg("s");
+                    sg.set("len", 14000 + static_cast<int64_t>((sameWorkload ? sharedIdx + k : r.next()) % 7000));
+                    op.sub.push_back(sg);
+                }
+                p.items.push_back(op);
+            }
         }
         return p;
     }
@@ -154,11 +179,11 @@ Plan genCodec(const std::string& prop, int tier, uint64_t batchSeed, uint64_t id
     g.bigFrames = c01 || c10;
 
     const bool wrapRun = c09 && r.chance(tier ? 3 : 1, 10);
-    if (c01 && r.chance(1, tier ? 300 : 1000))
+    if ((c01 && r.chance(1, tier ? 300 : 1000)) || ((c07 || c08 || c10) && r.chance(1, tier ? 100 : 300)) || (c09 && r.chance(1, tier ? 30 : 100)))
     {
         // one encoder session that crosses the 16-bit sequence counter wrap with a SEGMENTED packet straddling it,
         // everything decoded: 65530+ one-frame messages, then a packet of 3-6 segments starting a few frames before 65536
-        g.cfg().set("rx", 1);
+        g.cfg().set("rx", c01 ? 1 : 0);
         auto ep = g.pickEndpoints(1);
         g.addNode(1, 1, ep[0].first, ep[0].second).set("gap", 0).set("lat", 1);
         const int64_t maxB = r.range(25, 40), per = maxB - 24;
@@ -170,7 +195,8 @@ Plan genCodec(const std::string& prop, int tier, uint64_t batchSeed, uint64_t id
             Item& op = g.addOp(OP_ENC, 1, n);
             op.set("min", minB).set("max", maxB).set("ver", 1).set("mode", 0);
             Item m("m");
-            m.set("kind", 0).set("mtype", 1).set("ptype", 0x20).set("len", per).set("id", g.msgId()).set("rep", n);
+            // one frame per message either way: a message of per-1 bytes leaves no room for a second one
+            m.set("kind", 0).set("mtype", 1).set("ptype", 0x20).set("len", per > 1 && r.chance(1, 2) ? per - 1 : per).set("id", g.msgId()).set("rep", n);
             g.nextMsgId += 20001;
             op.sub.push_back(m);
             left -= n;
@@ -181,7 +207,7 @@ Plan genCodec(const std::string& prop, int tier, uint64_t batchSeed, uint64_t id
                 big.set("ts", static_cast<int64_t>(g.pickTs())).set("ifid", 77);
                 op.sub.push_back(big);
                 Item tail("m");
-                tail.set("kind", 0).set("mtype", 1).set("ptype", 0x20).set("len", per).set("id", g.msgId()).set("rep", 5);
+                tail.set("kind", 0).set("mtype", 1).set("ptype", 0x20).set("len", per > 1 ? per - 1 : per).set("id", g.msgId()).set("rep", 5);
                 g.nextMsgId += 10;
                 op.sub.push_back(tail);
             }
@@ -366,6 +392,12 @@ Plan genCodec(const std::string& prop, int tier, uint64_t batchSeed, uint64_t id
         op.set("min", minB).set("max", maxB);
         op.set("ver", r.chance(1, 2) ? 1 : (r.chance(1, 4) ? r.pick<int64_t>({0x7F, 0x80, 0xFE, 0xFF}) : r.range(1, 255)));
         op.set("mode", static_cast<int64_t>(r.below(4)));
+        if (c10 && !wrapRun && !manyFrames && !swarmOfTiny && msgs.size() >= 1 && r.chance(1, 6))
+        {
+            // the same packets first go into a call that is aborted half way (other frame size), then into the real one
+            op.set("abort", static_cast<int64_t>(r.below(msgs.size()))).set("abwhere", static_cast<int64_t>(r.below(2)));
+            op.set("abmax", r.chance(1, 2) ? maxB : r.pick<int64_t>({25, 40, 64, 300, 1500, 9000}));
+        }
         op.sub = std::move(msgs);
     }
     return g.finish();
@@ -514,6 +546,14 @@ Plan genReasm(const std::string& prop, int tier, uint64_t batchSeed, uint64_t id
             s.set("len", len);
             if (trailingRun && r.chance(1, 2))
                 s.set("trail", r.pick<int64_t>({1, 2, 15, 16, 17, 40, 64})).set("tfill", static_cast<int64_t>(r.below(2)));
+            if (trailingRun && r.chance(1, 6))
+            {
+                // trailing bytes that are well-formed messages, starting right behind the segment, after random filler, or
+                // exactly as far behind it as the earlier segments are long (where a receiver that "advances by the
+                // reassembled length" would look)
+                const int64_t tpad = r.chance(1, 2) ? total - len : (r.chance(1, 2) ? 0 : r.range(0, 60));
+                s.set("tfill", 2).set("tpad", std::max<int64_t>(0, tpad)).set("trail", std::min<int64_t>(1900, std::max<int64_t>(0, tpad) + r.range(20, 120)));
+            }
             if (k > 0 && r.chance(1, 2))
                 s.set("alt", r.range(1, 255));
             segs.push_back(std::move(s));
